@@ -123,7 +123,8 @@ def possible_type_sets(ck, repo):
         a = m.positional_params[1]
         # resolved on paths: the type is judged as it was given (an unwrapped list or non-null type would make `[Dog]` a possible type
         # of `Pet` in the interface-conformance clause)
-        r = [unparse(x["ret"]) for x in _rows(FuncView(m)) if x["exit"] == "return_exit" and x["ret"] is not None]
+        from ..q import inlined_view as _iv
+        r = [unparse(x["ret"]) for x in _rows(_iv(repo, m)) if x["exit"] == "return_exit" and x["ret"] is not None]   # conditional expressions become paths
         ck.ob(f"{cls}.is_possible_type is a membership test on the possible-type set, of the type exactly as given",
               bool(r) and all(x in (f"{a}.name in self._possible_types_set", f"{a} in self._possible_types_set") for x in r)
               and any(x == f"{a}.name in self._possible_types_set" for x in r), m, m.node,
@@ -190,10 +191,11 @@ def _entry_outside_try(ck, repo):
     exception instead of an errors-only response)."""
     for name in ("Engine.execute", "Engine.subscribe"):
         f = repo.func("tartiflette/engine.py", name)
-        fv = FuncView(f)
-        tries = [t for t in f.node.body if isinstance(t, ast.Try)]
+        from ..q import inlined_view as _iv3
+        fv = _iv3(repo, f)   # small helper methods of the engine are looked through
+        tries = [t for t in fv.node.body if isinstance(t, ast.Try)]
         outside = []
-        for st in f.node.body:
+        for st in fv.node.body:
             if isinstance(st, (ast.Try, ast.AsyncFor)) or (isinstance(st, ast.Expr) and isinstance(st.value, ast.Constant)):
                 continue   # the catch-all (execute) / the stream of the executor, whose failures are the consumer's (subscribe)
             outside.append(st)
@@ -260,7 +262,8 @@ def _never_raises(ck, repo):
               construct="engine:wrap-foreign", detail=str(rows)[:300])
     # statements outside the catch-all: only the cache lookup
     outside = []
-    for s in e.body:
+    from ..q import inlined_view as _iv2
+    for s in _iv2(repo, e).node.body:   # (small helper methods of the engine looked through)
         if isinstance(s, ast.Try):
             continue
         outside.append(s)
